@@ -37,7 +37,7 @@ def plan(prop, tier):
     q = tier == "quick"
     if prop == "C13":
         return [("f64", EXACT + "," + ROUND, 90 if q else 900, 3 if q else 4, 70 if q else 110, 12), ("f32", EXACT, 20 if q else 200, 3, 60, 12),
-                ("f64", "tfan,fan,tfan", 90 if q else 900, 3, 60, 12), ("tri", 2, 840, 9 if q else 1)]
+                ("f64", "tfan,fan,tfan", 90 if q else 900, 3, 60, 12), ("f64", "cx,cxsub,cx,cxabut", 160 if q else 1600, 4, 90, 8), ("tri", 2, 840, 9 if q else 1)]
     if prop == "C14":
         return [("f64", EXACT + ",cx,rect", 110 if q else 1100, 3 if q else 4, 70 if q else 110, 6), ("f32", EXACT, 20 if q else 200, 3, 60, 6), ("tri", 2, 840, 9 if q else 1)]
     if prop == "C15":
